@@ -80,9 +80,35 @@ Definition pair_step (s : pstate) (t : vtr) : pstate :=
 Definition pair_run (c : nat) (xs : list vtr) : pstate := fold_left pair_step xs (pinit c).
 End Add.
 
+(* ---------- several rollouts: env.reset() between the turns of the agents of a population ----------
+   train_off_policy calls env.reset() at the start of every agent's turn (every agent, every
+   generation) and keeps feeding the same n_step_memory.  [Reset false] = the tree as it is: the
+   deque of raw transitions survives the reset.  [Reset true] = the deque is emptied at the reset
+   (repair fixes/C10-nstep-deque-survives-reset.patch). *)
+Inductive ev := Step (t : vtr) | Reset (clears : bool).
+
+Definition ev_step (info : list vtr -> vtr) (n : nat) (s : pstate) (e : ev) : pstate :=
+  match e with
+  | Step t => pair_step info n s t
+  | Reset true => {| win := []; nbuf := nbuf s; mem := mem s; ret := ret s |}
+  | Reset false => s
+  end.
+
+Definition ev_run (info : list vtr -> vtr) (n c : nat) (evs : list ev) : pstate :=
+  fold_left (ev_step info n) evs (pinit c).
+
+(* the event list of a sequence of rollouts, each started by a reset *)
+Definition evs_of (clears : bool) (segs : list (list vtr)) : list ev :=
+  flat_map (fun seg => Reset clears :: map Step seg) segs.
+
 (* sample_from_indices(idxs) = storage[idxs], and memory.sample(..., return_idx=True) rows: a gather *)
 Definition gather (st : list (option cell)) (idx : list nat) : list (option cell) :=
   map (fun i => nth i st None) idx.
+
+(* the index tensor may be a column of shape (B,1) (what PrioritizedReplayBuffer.sample reports as idxs):
+   sample_from_indices flattens it (fix 04eaa1c) *)
+Definition gather_col (st : list (option cell)) (col : list (list nat)) : list (option cell) :=
+  gather st (concat col).
 
 (* ---------- batch layout of the two samples handed to the learner (shapes only) ----------
    storage[idx] with an index tensor of shape s has batch shape s.
